@@ -10,12 +10,14 @@ import (
 	"context"
 	"encoding/json"
 	"fmt"
+	"google.golang.org/protobuf/encoding/protowire"
 	"io"
 	"math"
 	"net/http"
 	"net/http/httptest"
 	"os"
 	"sort"
+	"strconv"
 	"strings"
 	"sync"
 	"testing"
@@ -93,7 +95,15 @@ func (l *loop) RoundTrip(req *http.Request) (*http.Response, error) {
 	if c != nil {
 		body = c(body, hdr)
 	}
-	in := httptest.NewRequest(req.Method, req.URL.Path, bytes.NewReader(body))
+	var rd io.Reader = bytes.NewReader(body)
+	if v := hdr.Get("X-Verif-Cut"); v != "" {
+		// the connection breaks in the middle of the body: the server reads a prefix, then the read fails (Content-Length says more)
+		hdr.Del("X-Verif-Cut")
+		k, _ := strconv.Atoi(v)
+		rd = io.MultiReader(bytes.NewReader(body[:k]), cutReader{})
+	}
+	in := httptest.NewRequest(req.Method, req.URL.Path, rd)
+	in.ContentLength = int64(len(body))
 	in.Header = hdr
 	rec := httptest.NewRecorder()
 	l.router.ServeHTTP(rec, in)
@@ -101,6 +111,21 @@ func (l *loop) RoundTrip(req *http.Request) (*http.Response, error) {
 	l.statuses = append(l.statuses, rec.Code)
 	l.mu.Unlock()
 	return rec.Result(), nil
+}
+
+type cutReader struct{}
+
+func (cutReader) Read([]byte) (int, error) { return 0, io.ErrUnexpectedEOF }
+
+// cutPoint: where the body breaks off; for an uncompressed protobuf at the end of its first top-level field, so that what did arrive
+// decodes on its own
+func cutPoint(b []byte, identity bool) int {
+	if identity {
+		if _, _, n := protowire.ConsumeField(b); n > 0 && n < len(b) {
+			return n
+		}
+	}
+	return len(b) / 2
 }
 
 func tagsOf(class string) gostatsd.Tags {
@@ -173,10 +198,10 @@ func build(es []entry, rng *vh.Rng) *gostatsd.MetricMap {
 		case "set":
 			m := map[string]struct{}{}
 			switch e.Val {
-			case "size1":
-				m["a"] = struct{}{}
+			case "size1": // members differ from series to series (by source): a member showing up in the wrong series is visible
+				m["a"+string(src)] = struct{}{}
 			case "size2-utf8":
-				m["a"], m["ünï ✓"] = struct{}{}, struct{}{}
+				m["b"+string(src)], m["ünï ✓"+string(src)] = struct{}{}, struct{}{}
 			}
 			if mm.Sets[e.Name] == nil {
 				mm.Sets[e.Name] = map[string]gostatsd.Set{}
@@ -279,7 +304,11 @@ func TestCases(t *testing.T) {
 					}
 					// only damage that is certain to make the body unreadable: a truncated zlib stream, a prefix that is neither a
 					// zlib header, an lz4 magic nor a protobuf tag (field 1 with the invalid wire type 7), an unknown encoding
-					switch k := rng.Intn(4); {
+					switch k := rng.Intn(5); {
+					case k == 4 && len(b) > 8:
+						enc := h.Get("Content-Encoding")
+						h.Set("X-Verif-Cut", strconv.Itoa(cutPoint(b, enc == "" || enc == "identity")))
+						return b
 					case k == 0 && h.Get("Content-Encoding") == "deflate":
 						return b[:len(b)/2]
 					case k == 3 && h.Get("Content-Encoding") == "deflate" && len(b) > 8:
